@@ -228,6 +228,13 @@ func (e *Engine) loadContractFile(path string, lib bool, pkg *types.Package) err
 				return err
 			}
 			e.globalInvs = append(e.globalInvs, &GlobalInv{Clause: c, Pkg: pkg})
+		case "shared":
+			e.sharedTypes[strings.TrimSpace(rest)] = true
+		case "waitlevel":
+			nm, lv := splitWord(rest)
+			var n int
+			fmt.Sscan(lv, &n)
+			e.waitLevels[nm] = n
 		case "field":
 			// field pkg.Type.f class(arg)
 			k, cl := splitWord(rest)
